@@ -27,7 +27,25 @@ struct string linein = {
 };
 static char lineinn[sizeof(lineinbuf)];	/**< if more than one line was in linein the rest is stored here */
 static size_t linenlen;			/**< length of the lineinn */
+static const SSL *linenssl;		/**< the TLS session (or NULL for clear text) the contents of lineinn were received in */
 time_t timeout;				/**< how long to wait for data */
+
+/**
+ * @brief drop buffered input that was received before the TLS state changed
+ *
+ * Everything that arrived in clear text before a TLS session was started (or
+ * inside a TLS session that has ended) must never be taken as input of the
+ * current state, otherwise e.g. clear text sent together with the reply to
+ * STARTTLS would be parsed as the replies to the commands sent inside TLS.
+ */
+static void
+drop_stale_input(void)
+{
+	if (linenssl != ssl) {
+		linenlen = 0;
+		linenssl = ssl;
+	}
+}
 
 /**
  * read the first characters of lineinn
@@ -301,6 +319,8 @@ net_read(const int fatal)
 	size_t readoffset = 0;
 	const char *p;
 	int valid;
+
+	drop_stale_input();
 
 	if (linenlen) {
 		p = find_eol(lineinn, linenlen, &valid);
@@ -597,6 +617,8 @@ net_readbin(size_t num, char *buf)
 {
 	size_t offs = 0;
 
+	drop_stale_input();
+
 	if (linenlen) {
 		if (linenlen > num) {
 			get_from_inbuffer(buf, num, 0);
@@ -637,6 +659,8 @@ net_readline(size_t num, char *buf)
 {
 	size_t offs = 0;
 	int valid;
+
+	drop_stale_input();
 
 	if (linenlen) {
 		int done;	/* if function must return after copying */
@@ -757,6 +781,8 @@ net_readline(size_t num, char *buf)
 int
 data_pending(SSL *s)
 {
+	drop_stale_input();
+
 	if (linenlen) {
 		return 1;
 	} else if (s) {
